@@ -37,6 +37,9 @@ def Divergent (k : Kind) (v : AV) (inside : Bool) : Prop :=
   ∨ (inside = true ∧ isFloat k = true ∧ ∃ s, v = .ident s ∧ s ≠ "inf" ∧ s ≠ "nan" ∧
         (s.toLower = "inf" ∨ s.toLower = "infinity" ∨ s.toLower = "nan"))
   ∨ (inside = true ∧ k = .bool ∧ ∃ n, v = .uint n ∧ n ≤ 1)
+  ∨ (inside = true ∧ k = .flt ∧
+        ((∃ n, v = .uint n ∧ natToF32 n ≠ f64ToF32 (natToF64 n))
+          ∨ (∃ i, v = .sint i ∧ natToF32 i.natAbs ≠ f64ToF32 (natToF64 i.natAbs))))
 
 /-- C20 for scalars at full strength -/
 def C20_scalar_full : Prop :=
@@ -57,13 +60,15 @@ theorem str_beq {s t : String} : (s == t) = true ↔ s = t := by simp
 
 /-- `scalar_coercion_eq`: for every scalar field kind, every literal the parser can produce and
     both contexts (option value / inside a message literal), the Go conversion and protoc's agree
-    on accept/reject and on the value — outside the three named divergences. -/
+    on accept/reject and on the value — outside the named divergences (and the integers the reference is silent about: float fields inside
+    a message literal when rounding once and rounding via double differ). -/
 theorem scalar_coercion_eq (k : Kind) (v : AV) (inside : Bool)
     (hk : isScalar k = true) (hwf : WF v) (hd : ¬ Divergent k v inside) :
     agree (scalarFieldValue k v inside) (refScalar protoc k v inside) := by
   cases k <;> simp [isScalar] at hk <;> cases v <;>
     simp_all [scalarFieldValue, refScalar, intRange, isSigned32, isUnsigned32, isSigned64, isUnsigned64,
-      protoc, WF, Divergent, isUnsigned, isFloat, maxI32, minI32, maxU32, maxI64, floatIdent] <;>
+      protoc, WF, Divergent, isUnsigned, isFloat, maxI32, minI32, maxU32, maxI64, floatIdent,
+      f32OfNat, f32OfInt, f64OfNat, f64OfInt] <;>
     (repeat' split) <;> (try simp_all [agree]) <;> (try omega)
 
 /-! ## Bool identifiers -/
@@ -921,6 +926,62 @@ theorem enum_value_lifetime_rule (en : EnumS) (e : Nat) (n : Int) :
 theorem msgSetGate_ordinary_field (s : Schema) (f : FieldS) (h : f.extendee = "") : msgSetGate s f = none := by
   simp [msgSetGate, h]
 
+/-! ## Integer literals for float options: one rounding step -/
+
+/-- an integer that fits the significand is not rounded at all -/
+theorem roundToSig_exact (p n : Nat) (h : n < 2 ^ p) : roundToSig p n = (n, 0) := by
+  unfold roundToSig
+  by_cases hn : n = 0
+  · simp [hn]
+  · have hlt : n.log2 < p := (Nat.log2_lt hn).mpr h
+    have : n.log2 + 1 ≤ p := hlt
+    simp [hn, this]
+
+/-- `float32(n)` is exact below 2^24 and `float64(n)` below 2^53: the bits are those of `n` itself -/
+theorem natToF32_exact (n : Nat) (h : n < 2 ^ 24) : natToF32 n = packSig 24 127 255 n 0 := by
+  unfold natToF32; rw [roundToSig_exact 24 n h]
+
+theorem natToF64_exact (n : Nat) (h : n < 2 ^ 53) : natToF64 n = packSig 53 1023 2047 n 0 := by
+  unfold natToF64; rw [roundToSig_exact 53 n h]
+
+/-- the model converts an integer literal for a float field in ONE step (Go: `float32(u)`), in
+    option values and inside message literals alike … -/
+theorem float_option_from_integer_single_rounding (n : Nat) (inside : Bool) :
+    scalarFieldValue .flt (.uint n) inside = .ok (.num (natToF32 n)) := by
+  simp [scalarFieldValue, f32OfNat]
+
+/-- … and so does the protoc reference for option values (`static_cast<float>(uint64)`) -/
+theorem float_option_from_integer_eq_protoc (n : Nat) :
+    refScalar protoc .flt (.uint n) false = .ok (.num (natToF32 n)) := by
+  simp [refScalar, intRange, isSigned32, isUnsigned32, isSigned64, isUnsigned64]
+
+/-- rounding once and rounding via float64 are different functions: 2^60 + 2^36 + 1 lies just above
+    the midpoint of two float32 values (→ 0x5d800001), its float64 image lies exactly on it
+    (→ ties-to-even 0x5d800000) -/
+theorem single_vs_double_rounding_witness :
+    natToF32 (2 ^ 60 + 2 ^ 36 + 1) = 0x5d800001 ∧ f64ToF32 (natToF64 (2 ^ 60 + 2 ^ 36 + 1)) = 0x5d800000 := by
+  decide +kernel
+
+theorem single_ne_double_rounding :
+    natToF32 (2 ^ 60 + 2 ^ 36 + 1) ≠ f64ToF32 (natToF64 (2 ^ 60 + 2 ^ 36 + 1)) := by
+  rw [single_vs_double_rounding_witness.1, single_vs_double_rounding_witness.2]; decide
+
+/-- ties go to the even significand, on both sides of 2^24 -/
+theorem natToF32_ties_to_even :
+    natToF32 16777217 = natToF32 16777216 ∧ natToF32 16777219 = natToF32 16777220 ∧
+    natToF32 16777218 ≠ natToF32 16777216 := by
+  decide +kernel
+
+/-- monotone across the first rounding boundary (complete finite table: 2^24 ± 128), and across
+    the witness region at every exponent 54..63 -/
+theorem natToF32_monotone_near_2_24 :
+    ∀ n < 256, natToF32 (2 ^ 24 - 128 + n) ≤ natToF32 (2 ^ 24 - 128 + n + 1) := by
+  decide +kernel
+
+theorem natToF32_single_ne_double_each_exponent :
+    ∀ j < 10, natToF32 (2 ^ (54 + j) + 2 ^ (30 + j) + 1) = f64ToF32 (natToF64 (2 ^ (54 + j) + 2 ^ (30 + j) + 1)) + 1 := by
+  decide +kernel
+
 /-! ## Non-vacuity -/
 
 /-- the hypotheses of `scalar_coercion_eq` are satisfiable and the conclusion is not trivial -/
@@ -955,3 +1016,10 @@ end PCV.Props.C20
 #print axioms PCV.Props.C20.lowercase_match_of_non_group_not_found
 #print axioms PCV.Props.C20.feature_lifetime_rule
 #print axioms PCV.Props.C20.enum_value_lifetime_rule
+#print axioms PCV.Props.C20.roundToSig_exact
+#print axioms PCV.Props.C20.float_option_from_integer_single_rounding
+#print axioms PCV.Props.C20.float_option_from_integer_eq_protoc
+#print axioms PCV.Props.C20.single_ne_double_rounding
+#print axioms PCV.Props.C20.natToF32_ties_to_even
+#print axioms PCV.Props.C20.natToF32_monotone_near_2_24
+#print axioms PCV.Props.C20.natToF32_single_ne_double_each_exponent
